@@ -77,7 +77,8 @@ def _case(kind, recs, expr, form):
                 expected.append(_obs(r))
         got, err = [], None
         try:
-            with RecordReader(path, selector=mk()) as rd:
+            # (SQLite: a small batch size, so that the table spans several batches)
+            with RecordReader(path + ("?batch_size=1" if kind == "sqlite" else ""), selector=mk()) as rd:
                 for r in rd:
                     got.append(_obs(r))
         except Exception as e:
@@ -294,4 +295,28 @@ def c10_model_conformance():
     return {"ok": True, "cases": 3, "violates": False}
 
 
-CALLS = {"c10_history_grouped": c10_history_grouped, "c10_frame_list": c10_frame_list, "c10_history_value": c10_history_value, "c10_equiv": c10_equiv, "c10_sweep": c10_sweep, "c10_reader": c10_reader, "c10_history": c10_history, "c10_frame": c10_frame, "c10_make": c10_make, "c10_model_conformance": c10_model_conformance}
+
+def c10_entry(expr="r.n > 6 and r.s"):
+    from flow.record import RecordDescriptor, RecordReader, RecordWriter
+    from flow.record.selector import Selector
+
+    A = RecordDescriptor("c10/a", [("varint", "n"), ("string", "s")])
+    recs = [A(n=5, s="a"), A(n=None, s="b"), A(n=7, s=""), A(n=9, s="d")]
+    with tempfile.TemporaryDirectory() as td:
+        path = os.path.join(td, "e.records")
+        w = RecordWriter(path)
+        for r in recs:
+            w.write(r)
+        w.flush()
+        w.close()
+        want = [r.s for r in recs if _safe_match(Selector(expr), r) is True]
+        got, end = [], "stop"
+        try:
+            with RecordReader(path, selector=expr) as rd:
+                for r in rd:
+                    got.append(r.s)
+        except Exception as e:
+            end = f"raise {type(e).__name__}"
+    return {"violates": got != want or end != "stop", "detail": f"reading by path with the text selector {expr!r} yields {got} (ended {end}), testing each record afterwards keeps {want}"}
+
+CALLS = {"c10_entry": c10_entry, "c10_history_grouped": c10_history_grouped, "c10_frame_list": c10_frame_list, "c10_history_value": c10_history_value, "c10_equiv": c10_equiv, "c10_sweep": c10_sweep, "c10_reader": c10_reader, "c10_history": c10_history, "c10_frame": c10_frame, "c10_make": c10_make, "c10_model_conformance": c10_model_conformance}
